@@ -5,7 +5,7 @@ trace."""
 import json
 import time
 
-from harness.common import Prop, canon, run_driver, case_hash
+from harness.common import Prop, canon, run_driver, case_hash, scale
 from harness import gen_build as G
 from harness import cxx_run as X
 
@@ -53,7 +53,7 @@ def parse_ret(line):
 
 
 class ProgProp(Prop):
-    n_programs = (16, 200)           # quick, thorough
+    n_programs = (16, 320)           # quick, thorough
     scripts_per_program = 4
     want_mc = None                   # None: mix; True/False
     asan_fraction = 0.0              # thorough: fraction of programs also built with clang++ ASan+UBSan
@@ -62,7 +62,7 @@ class ProgProp(Prop):
     def add_wrapper_stream(self, ctx, res):
         if not self.wrapper_stream:
             return res
-        n = self.wrapper_stream[0 if ctx['tier'] == 'quick' else 1]
+        n = self.wrapper_stream[0] if ctx['tier'] == 'quick' else scale(self.wrapper_stream[1])
         f, d, sh, cov = mc_wrapper_stream(ctx['rng'], n)
         res['failures'] += f
         res['disagreements'] += d
@@ -125,7 +125,7 @@ class ProgProp(Prop):
 
     def extra(self, ctx):
         rng, tier = ctx['rng'], ctx['tier']
-        n = self.n_programs[0 if tier == 'quick' else 1]
+        n = self.n_programs[0] if tier == 'quick' else scale(self.n_programs[1])
         cases = [self.gen_case(rng) for _ in range(n)]
         if self.want_mc is not True:
             # at least a fifth of the programs: one spelling, a different extern per namespace
